@@ -24,6 +24,7 @@ PROFILE_MODULES = {
     "C01": "dsim.profiles.valuesp",
     "C03": "dsim.profiles.grid",
     "C11": "dsim.profiles.addressing",
+    "C12": "dsim.profiles.merge",
     "C17": "dsim.profiles.damage",
     "C19": "dsim.profiles.names",
 }
@@ -226,7 +227,7 @@ def load_known():
 def known_index(prop: str):
     idx = {}
     for f in load_known():
-        if f.get("status") == "known" and f.get("property") == prop:
+        if f.get("status") == "known":
             idx[(f["check_id"], f["key"] if isinstance(f["key"], str) else json.dumps(f["key"], sort_keys=True))] = f
     return idx
 
@@ -342,10 +343,12 @@ def batch(prop: str, tier: str, base_seed: int, budget_s=None, max_runs=None, wo
 
         # known findings: replay each witness, report it
         for ident, f in known.items():
-            ok = replay_known(prop, f)
             n = known_seen.get(ident, 0)
+            if f.get("property") != prop and n == 0:
+                continue  # another property's finding, not met here
+            ok = replay_known(f.get("property", prop), f)
             if ok:
-                print(f"KNOWN-FINDING: property={prop} {f['what']} [{f['check_id']} {f['key']}] (witness reproduces; met {n}x in this batch)", flush=True)
+                print(f"KNOWN-FINDING: property={f.get('property', prop)} {f['what']} [{f['check_id']} {f['key']}] (witness reproduces; met {n}x in this batch)", flush=True)
             else:
                 print(f"[dsim] note: known finding {f['check_id']} {f['key']} no longer reproduces from its witness", flush=True)
 
